@@ -102,7 +102,9 @@ open Sebuf.Decode Sebuf.Json Sebuf.Surgery
 
 /-- **tie**: the edits `Decode.Impl.editMember` transcribes are the text go-http emits now: the
 member is unmarshalled into the Go type shown, converted, and on ANY failure (`err == nil` /
-`decErr == nil` / `parseErr == nil` without an else branch) left as it is. -/
+`decErr == nil` / `parseErr == nil` without an else branch) left as it is. The unix-seconds / unix-millis
+edits convert to UTC before formatting (`fix: timestamp_format: decode unix seconds / millis in UTC`): in the
+process's local zone the RFC 3339 text loses the seconds of a local-mean-time offset. -/
 theorem edit_blocks_transcribed :
     Gen.Decoders.editBlocks.lookup "BytesReq.bHex" = some "if v, ok := raw[\"bHex\"]; ok { var s string if err := json.Unmarshal(v, &s); err == nil { decoded, decErr := hex.DecodeString(s) if decErr == nil { raw[\"bHex\"], _ = json.Marshal(base64.StdEncoding.EncodeToString(decoded)) } } }" ∧
     Gen.Decoders.editBlocks.lookup "BytesReq.bRaw" = some "if v, ok := raw[\"bRaw\"]; ok { var s string if err := json.Unmarshal(v, &s); err == nil { decoded, decErr := base64.RawStdEncoding.DecodeString(s) if decErr == nil { raw[\"bRaw\"], _ = json.Marshal(base64.StdEncoding.EncodeToString(decoded)) } } }" ∧
@@ -117,8 +119,8 @@ theorem edit_blocks_transcribed :
     Gen.Decoders.editBlocks.lookup "NullReq.maybeS" = some "if rawVal, ok := raw[\"maybeS\"]; ok && string(rawVal) == \"null\" { delete(raw, \"maybeS\") }" ∧
     Gen.Decoders.editBlocks.lookup "NullReq.maybeN" = some "if rawVal, ok := raw[\"maybeN\"]; ok && string(rawVal) == \"null\" { delete(raw, \"maybeN\") }" ∧
     Gen.Decoders.editBlocks.lookup "NullReq.maybeB" = some "if rawVal, ok := raw[\"maybeB\"]; ok && string(rawVal) == \"null\" { delete(raw, \"maybeB\") }" ∧
-    Gen.Decoders.editBlocks.lookup "TsReq.tSecs" = some "if v, ok := raw[\"tSecs\"]; ok { var n int64 if err := json.Unmarshal(v, &n); err == nil { t := time.Unix(n, 0) raw[\"tSecs\"], _ = json.Marshal(t.Format(time.RFC3339Nano)) } }" ∧
-    Gen.Decoders.editBlocks.lookup "TsReq.tMillis" = some "if v, ok := raw[\"tMillis\"]; ok { var n int64 if err := json.Unmarshal(v, &n); err == nil { t := time.UnixMilli(n) raw[\"tMillis\"], _ = json.Marshal(t.Format(time.RFC3339Nano)) } }" ∧
+    Gen.Decoders.editBlocks.lookup "TsReq.tSecs" = some "if v, ok := raw[\"tSecs\"]; ok { var n int64 if err := json.Unmarshal(v, &n); err == nil { t := time.Unix(n, 0).UTC() raw[\"tSecs\"], _ = json.Marshal(t.Format(time.RFC3339Nano)) } }" ∧
+    Gen.Decoders.editBlocks.lookup "TsReq.tMillis" = some "if v, ok := raw[\"tMillis\"]; ok { var n int64 if err := json.Unmarshal(v, &n); err == nil { t := time.UnixMilli(n).UTC() raw[\"tMillis\"], _ = json.Marshal(t.Format(time.RFC3339Nano)) } }" ∧
     Gen.Decoders.editBlocks.lookup "TsReq.tDate" = some "if v, ok := raw[\"tDate\"]; ok { var s string if err := json.Unmarshal(v, &s); err == nil { t, parseErr := time.Parse(\"2006-01-02\", s) if parseErr == nil { raw[\"tDate\"], _ = json.Marshal(t.Format(time.RFC3339Nano)) } } }" := by
   refine ⟨rfl, rfl, rfl, rfl, rfl, rfl, rfl, rfl, rfl, rfl, rfl, rfl, rfl, rfl, rfl, rfl⟩
 
